@@ -688,10 +688,17 @@ def oracle(c, i):
         if v[b] < v[a] - slack:
             return (f"{call}: the value decreases as the score worsens: PSM {a} (score {sc[a]!r}) has "
                     f"{float(v[a])!r}, PSM {b} (score {sc[b]!r}) has {float(v[b])!r}")
-    return None
-
-
-def finding_key(c, m, i):
+    # "whatever the input order": the same PSMs presented in descending order get the same values
+    # (qvalues_from_counts reads the FDR of a tie group at whichever member np.argsort lists first, so with tied
+    #  scores its values legitimately depend on the row order: compared only when all scores are distinct)
+    if any(sc[a] < sc[b] for a, b in zip(range(n), range(1, n))) and (alg != "from_counts" or len(set(sc)) == n):
+        cs = dict(c, scores=[sc[j] for j in order], targets=[c["targets"][j] for j in order])
+        r2 = _run(cs)
+        if r2["err"] is None and r2["out"] is not None and len(r2["out"]) == n and all(x == x and abs(x) != math.inf for x in r2["out"]):
+            for pos, j in enumerate(order):
+                if abs(float(v[j]) - r2["out"][pos]) > 1e-6 * max(1.0, abs(r2["out"][pos])):
+                    return (f"{call}: PSM {j} (score {sc[j]!r}) gets {float(v[j])!r}, but {r2['out'][pos]!r} when the same PSMs "
+                            f"are passed in descending score order — the i-th value does not belong to the i-th input PSM")
     return None
 
 
@@ -798,8 +805,39 @@ def _pipeline_checks(ctx):
     return fails, {"pipeline_result_files_checked": nfiles, "pipeline_rows_checked": nrows}
 
 
+def _tie_order_probe():
+    """Observation (reported, not a verdict): qvalues_from_counts on the same PSMs with two tied rows exchanged."""
+    import numpy as np
+    import mokapot.qvalues as mq
+    saved = mq.estimate_pi0_by_slope
+    try:
+        mq.estimate_pi0_by_slope = lambda *a, **k: 1.0
+        sc = np.array([9.0, 8.0, 7.0, 7.0, 6.0, 5.0])
+        tg = np.array([True, True, True, False, False, True])
+        sw = [0, 1, 3, 2, 4, 5]
+        with np.errstate(all="ignore"):
+            q1 = mq.qvalues_from_counts(sc, tg)
+            q2 = mq.qvalues_from_counts(sc[sw], tg[sw])
+        return {"scores": sc.tolist(), "targets": tg.tolist(), "q": [float(v) for v in q1],
+                "q_with_tied_rows_exchanged": [float(v) for v in q2], "depends_on_row_order": bool(q1[2] != q2[2]),
+                "finding_key": "from_counts:tie-order-dependent"}
+    except Exception as e:  # noqa
+        return {"error": f"{type(e).__name__}: {e}"[:200]}
+    finally:
+        mq.estimate_pi0_by_slope = saved
+
+
+def finding_key(c, m, i):
+    """structural keys of behaviours that are reported as observations (see the evidence file)"""
+    if c.get("fn") == "qvals" and c.get("alg") == "from_counts" and i is not None and i[0] == "ok" \
+            and isinstance(i[1], tuple) and i[1][0] == "allinf":
+        return "from_counts:best-row-decoy-gives-inf"
+    return None
+
+
 def extra_checks(ctx):
     info = {"tolerance": "1e-9 relative/absolute on every value; exact equality for monotonize_simple"}
+    info["observation_from_counts_tied_scores"] = _tie_order_probe()
     fails = []
     pf, pinfo = _pipeline_checks(ctx)
     fails += pf
